@@ -92,6 +92,42 @@ STR_CLASSES = {'t': bs4.NavigableString, 'c': bs4.Comment, 'cd': bs4.CData,
                'pi': bs4.ProcessingInstruction, 'dt': bs4.Doctype, 'dc': bs4.Declaration}
 
 
+# Subclasses of the string node classes.  Parsers create these (lxml-xml: XMLProcessingInstruction; html.parser / lxml:
+# Script, Stylesheet, TemplateString, RubyTextString, RubyParenthesisString) and applications may define their own; a
+# subclass of a markup class is still markup, a subclass of NavigableString that is none of them is still text.
+# Only generators that ask for these kinds get them (no existing generator emits them).
+class UserText(bs4.NavigableString):
+    pass
+
+
+class UserComment(bs4.Comment):
+    pass
+
+
+class UserCData(bs4.CData):
+    pass
+
+
+class UserPI(bs4.ProcessingInstruction):
+    pass
+
+
+class UserDoctype(bs4.Doctype):
+    pass
+
+
+class UserDeclaration(bs4.Declaration):
+    pass
+
+
+STR_CLASSES.update({
+    'xpi': bs4.element.XMLProcessingInstruction, 'uc': UserComment, 'ucd': UserCData, 'upi': UserPI, 'udt': UserDoctype,
+    'udc': UserDeclaration,
+    'ut': UserText, 'sc': bs4.element.Script, 'st': bs4.element.Stylesheet, 'tp': bs4.element.TemplateString,
+    'rts': bs4.element.RubyTextString, 'rps': bs4.element.RubyParenthesisString,
+})
+
+
 def build_node(soup, kind, t):
     if t[0] != 'e':
         return STR_CLASSES[t[0]](t[1])
@@ -100,6 +136,9 @@ def build_node(soup, kind, t):
         ns = XHTML
     el = soup.new_tag(name, namespace=ns, nsprefix=prefix)
     for k, v in attrs:
+        if isinstance(k, (list, tuple)):
+            # a namespaced attribute key given as [prefix, local name, namespace URI] (what html5lib / lxml-xml store)
+            k = bs4.element.NamespacedAttribute(k[0], k[1], k[2])
         el.attrs[k] = list(v) if isinstance(v, list) else v
     for c in kids:
         el.append(build_node(soup, kind, c))
@@ -274,6 +313,180 @@ def gen_list(r, depth=0, feats=None, maxn=3):
     feats = feats or {}
     n = r.choice([1, 1, 1, 2, 3][:maxn + 2])
     return ', '.join(gen_complex(r, depth, feats) for _ in range(n))
+
+
+# ---------------------------------------------------------------------------------------------
+# repeated content: the same subtree (equal name, attributes and whole content) at several places of one document,
+# under different ancestors / after different siblings; and selectors read off an actual path of the document
+# ---------------------------------------------------------------------------------------------
+def clone(t):
+    """A fresh copy of an abstract node (no sharing of child lists with the original)."""
+    if t[0] != 'e':
+        return (t[0], t[1])
+    return ('e', t[1], t[2], t[3], [(k, list(v) if isinstance(v, list) else v) for k, v in t[4]], [clone(c) for c in t[5]])
+
+
+def tree_size(t):
+    return 1 + sum(tree_size(c) for c in t[5]) if t[0] == 'e' else 1
+
+
+def tree_height(t):
+    """0 for an element without element children."""
+    hs = [tree_height(c) for c in t[5] if c[0] == 'e']
+    return 1 + max(hs) if hs else 0
+
+
+def abstract_elements(nodes):
+    out = []
+    for n in nodes:
+        if n[0] == 'e':
+            out.append(n)
+            out.extend(abstract_elements(n[5]))
+    return out
+
+
+def graft_copies(r, top, k=None, max_size=30, tags=TAGS):
+    """Returns (top', stats): a copy of the abstract forest `top` in which k subtrees have been repeated at another
+    place: under another parent, at another depth, at top level, inside themselves, or in the same parent at another
+    position.  The repeated subtree is equal to its source in name, attributes and whole content (bs4 compares such
+    tags equal and hashes them alike) but is a different element with different ancestors and siblings.  Variants: the
+    copy is wrapped into a fresh element (an ancestor the source does not have); the copy differs from the source in
+    one attribute or one text node deep inside (a near-copy: equal at the surface only)."""
+    top = [clone(t) for t in top]
+    stats = {'exact': 0, 'near': 0, 'wrapped': 0, 'top_level': 0, 'same_parent': 0}
+    for _ in range(k if k is not None else r.choice([1, 1, 2, 2, 3])):
+        els = [e for e in abstract_elements(top) if tree_size(e) <= max_size]
+        if not els:
+            break
+        tall = [e for e in els if tree_height(e) >= 1]
+        src = r.choice(tall) if tall and r.random() < 0.85 else r.choice(els)
+        cp = clone(src)
+        if r.random() < 0.2:
+            inner = abstract_elements([cp])
+            v = r.choice(inner)
+            if r.random() < 0.5:
+                v[4].append(('data-k', r.choice(['1', '2'])))
+            else:
+                v[5].append(('t', r.choice(['k', 'kk'])))
+            stats['near'] += 1
+        else:
+            stats['exact'] += 1
+        if r.random() < 0.3:
+            cp = ('e', r.choice(tags), None, None, gen_attrs(r, rich=False), [cp])
+            stats['wrapped'] += 1
+        parents = [e for e in abstract_elements(top)]
+        x = r.random()
+        if x < 0.15 or not parents:
+            first = next((i for i, n in enumerate(top) if n[0] == 'e'), len(top))
+            top.insert(r.randint(first, len(top)), cp)
+            stats['top_level'] += 1
+        else:
+            holder = r.choice(parents)
+            if x < 0.35:
+                own = [e for e in parents if any(c is src for c in e[5])]
+                if own:
+                    holder = own[0]
+                    stats['same_parent'] += 1
+            holder[5].insert(r.randint(0, len(holder[5])), cp)
+    return top, stats
+
+
+def elem_chains(top):
+    """For every element of the abstract forest: its chain [(node, preceding element siblings), ...] from the outermost
+    ancestor down to the element itself."""
+    out = []
+
+    def walk(nodes, chain):
+        prev = []
+        for n in nodes:
+            if n[0] != 'e':
+                continue
+            c = chain + [(n, tuple(prev))]
+            out.append(c)
+            walk(n[5], c)
+            prev.append(n)
+    walk(top, [])
+    return out
+
+
+def describe_el(r, n):
+    """A compound selector that the abstract element `n` satisfies (in a document without namespaces declared to the
+    selector): its type, one of its ids / classes / attributes, or a combination."""
+    _, name, _, _, attrs, _ = n
+    d = dict(attrs)
+    opts = [name, name, name]
+    if 'id' in d:
+        opts += ['#' + d['id'], name + '#' + d['id']]
+    for c in d.get('class', []):
+        opts += ['.' + c, name + '.' + c]
+    for k, v in attrs:
+        if k not in ('id', 'class') and isinstance(v, str):
+            opts += [f'[{k}]', f'{name}[{k}={q(v)}]']
+    if r.random() < 0.08:
+        return '*'
+    return r.choice(opts)
+
+
+def gen_path_sel(r, top, chains=None, feats=None):
+    """A selector read off an actual path of the document: some ancestors of a chosen element (and sometimes a preceding
+    sibling of one of them), each described by something it really carries, joined by the combinators that really hold
+    between them; then possibly negated, nested in :is/:where/:has, or relaxed.  By construction the plain form matches
+    the chosen element, so whether *other* elements with the same description (repeated content elsewhere in the
+    document) are selected is decided by their own ancestors and siblings only."""
+    chains = chains if chains is not None else elem_chains(top)
+    if not chains:
+        return gen_list(r, 0, feats)
+    c = r.choice(chains)
+    for _ in range(2):
+        c2 = r.choice(chains)
+        if len(c2) > len(c):
+            c = c2
+    m = len(c)
+    keep = [i for i in range(m - 1) if r.random() < 0.4]
+    if not keep and m > 1:
+        keep = [r.randrange(m - 1)]
+    keep.append(m - 1)
+    descs, combs = [], []
+    last = None
+    for i in keep:
+        n, prev = c[i]
+        d = own = describe_el(r, n)
+        if prev and r.random() < 0.25:
+            j = r.randrange(len(prev))
+            comb = ' + ' if j == len(prev) - 1 and r.random() < 0.6 else ' ~ '
+            d = describe_el(r, prev[j]) + comb + d
+        if r.random() < 0.06:
+            d = own = gen_compound(r, 2, feats or {})    # a description the path member need not satisfy
+        if last is not None:
+            combs.append(' > ' if i == last + 1 and r.random() < 0.35 else ' ')
+        descs.append(d)
+        last = i
+
+    def join(a, b):
+        return ''.join(x for i in range(a, b) for x in ((combs[i - 1] if i > a else ''), descs[i]))
+    k = len(descs)
+    sel = join(0, k)
+    subj = own
+    x = r.random()
+    if x < 0.4 or k == 1 and x < 0.6:
+        return sel
+    if x < 0.5:
+        return f'{subj}:not({sel})'
+    if x < 0.55:
+        return f':not({sel})'
+    if x < 0.65:
+        return f'{r.choice([":is", ":where", ":matches"])}({sel})'
+    if x < 0.7:
+        return f':is({sel}, {gen_complex(r, 2, feats or {})})'
+    if x < 0.75:
+        return sel + r.choice([' *', ' > *', ', ' + gen_complex(r, 1, feats or {})])
+    if k >= 2:
+        cut = r.randrange(1, k)
+        if x < 0.9:
+            rel = combs[cut - 1].strip()
+            return f'{join(0, cut)}:has({rel + " " if rel else ""}{join(cut, k)})'
+        return f':is({join(0, cut)}){combs[cut - 1]}{join(cut, k)}'
+    return sel
 
 
 # ---------------------------------------------------------------------------------------------
